@@ -102,7 +102,39 @@ RoundQ(c4) == IF c4 % 4 = 2 THEN {c4 \div 4, c4 \div 4 + 1} ELSE IF c4 % 4 = 3 T
 CoordStr(c, prec) ==
   IF prec > 0 THEN DigitsOf(c \div Pow10(prec)) \o <<46>> \o Pad(DigitsOf(c % Pow10(prec)), prec)
   ELSE DigitsOf(c) \o (IF c = 0 THEN <<>> ELSE [i \in 1..(-prec) |-> 48])
+\* a coordinate of either sign (c4 in quarter units, % and \div are floor operations so RoundQ is right for negative
+\* counts too); a negative coordinate that rounds to zero may keep its sign (rule NegZero: "-0" names the same number)
+CoordStrs(c4, prec) ==
+  UNION {IF c > 0 THEN {CoordStr(c, prec)}
+         ELSE IF c < 0 THEN {<<45>> \o CoordStr(-c, prec)}
+         ELSE IF c4 < 0 THEN {CoordStr(0, prec), <<45>> \o CoordStr(0, prec)} ELSE {CoordStr(0, prec)} : c \in RoundQ(c4)}
 UTMUPSStrQ(zone, northp, abbrev, E4, N4, prec) ==
   LET z == UT!EncodeZone(zone, northp, abbrev) IN
-  {z[2] \o <<32>> \o CoordStr(e, prec) \o <<32>> \o CoordStr(n, prec) : e \in RoundQ(E4), n \in RoundQ(N4)}
+  {z[2] \o <<32>> \o e \o <<32>> \o n : e \in CoordStrs(E4, prec), n \in CoordStrs(N4, prec)}
+
+(* GeoCoords.hpp, UTMUPSRepresentation(northp, prec, abbrev) / AltUTMUPSRepresentation(northp, ...): "UTM/UPS string *)
+(* with hemisphere override": the same point of a UTM zone written in the convention of hemisphere np2 - the false   *)
+(* northing of the southern hemisphere is 10 000 km (UTMUPS.hpp, UTMShift), so the northing moves by that much and   *)
+(* may become negative (north convention for a southern point) or exceed 10 000 km (the converse).                    *)
+ShiftCount(prec) == IF prec > 0 THEN 10000000 * Pow10(prec) ELSE 10000000 \div Pow10(-prec)
+OverrideN4(northp, np2, N4, prec) == IF northp = np2 THEN N4 ELSE IF np2 THEN N4 - 4 * ShiftCount(prec) ELSE N4 + 4 * ShiftCount(prec)
+UTMUPSStrOverride(zone, northp, np2, abbrev, E4, N4, prec) == UTMUPSStrQ(zone, np2, abbrev, E4, OverrideN4(northp, np2, N4, prec), prec)
+
+(* The undefined position (GeoCoords.hpp: "The default constructor sets the coordinate as undefined"; so does a NaN    *)
+(* latitude and longitude).  Its representations: numbers print as nan (Utility::str), the zone as inv (UTMUPS.hpp,     *)
+(* EncodeZone: "INVALID ... inv"), the MGRS reference as INVALID (MGRS.hpp: "if lat is NaN ... INVALID"); closure: each *)
+(* of them is read back by Reset as an undefined position ("invalid" with the long names: the over-demand of my first   *)
+(* version of this law, corrected).  rep: 0 geo 1 dms 2 utm 3 utm, long names 4 mgrs 5 alt utm                            *)
+(* 6 alt mgrs 7 utm with hemisphere override.                                                                            *)
+W_nan == <<110, 97, 110>>
+InvRep(rep) == CASE rep \in {0, 1} -> W_nan \o <<32>> \o W_nan
+                 [] rep \in {4, 6} -> <<73, 78, 86, 65, 76, 73, 68>>
+                 [] OTHER -> UT!EncodeZone(UT!INVALID, FALSE, rep # 3)[2] \o <<32>> \o W_nan \o <<32>> \o W_nan
+
+(* The family of calls that GeoCoords.hpp declares equivalent to Reset(s, centerp, longfirst): the constructor from  *)
+(* a string, and both with trailing arguments left out ("centerp ... (default = true)", "longfirst ... (default      *)
+(* false)").  via: 0 Reset(s, c, w)  1 Reset(s, c)  2 Reset(s)  3 GeoCoords(s, c, w)  4 GeoCoords(s, c)  5 GeoCoords(s) *)
+DefCenterp == TRUE
+DefLongfirst == FALSE
+ViaOK(via, c, w) == CASE via \in {0, 3} -> TRUE [] via \in {1, 4} -> w = DefLongfirst [] via \in {2, 5} -> c = DefCenterp /\ w = DefLongfirst [] OTHER -> FALSE
 =============================================================================
